@@ -1,6 +1,6 @@
 SPECIFICATION TraceSpec
 CONSTANTS
-  Defects = {"D1", "D2", "D3"}
+  Defects = {"D1", "D2", "D3", "D4"}
 CONSTRAINT TraceConstraint
 POSTCONDITION TraceAccepted
 CHECK_DEADLOCK FALSE
@@ -13,4 +13,5 @@ INVARIANTS
   C17_VrfVisible
   C17_VrfExport
   C17_CeExport_KF
+  C17_CeComplete_KF
   C17_RtcExact_KF
